@@ -86,10 +86,23 @@ class P(flow.Plan):
                 sel = [rng.random() < 0.7 for _ in range(3 * len(script) + 8)]
             traces.append(sock_rec.run_script(stream, script, sel, writes=wr))
             inputs.append({"stream": list(stream), "script": script, "sel": sel, "writes": wr})
+            if i % 10 == 4 and stream:
+                # the same Device object connected again afterwards (added after seed C17i); the first connection ends with an
+                # unterminated tail, as a peer that dies in mid-line leaves it
+                first = bytes(stream).rstrip(b"\n") + b"half"
+                fs = [min(64, len(first))] * (len(first) // 64 + 1) + ["eof"]
+                two = sock_rec.run_sessions([(first, fs, [True] * len(fs)), (stream, script, sel)])
+                for t, (st, sc, se) in zip(two, [(first, fs, [True] * len(fs)), (stream, script, sel)]):
+                    traces.append(t)
+                    inputs.append({"stream": list(st), "script": sc, "sel": se, "writes": [], "sessions": [list(first), fs]})
         return traces, inputs
 
     def replay(self, payload):
         inp = payload["input"]
+        if inp.get("sessions"):          # a connection of a Device that had served another one before: replay both, judge the second
+            first, fs = bytes(inp["sessions"][0]), inp["sessions"][1]
+            two = sock_rec.run_sessions([(first, fs, [True] * len(fs)), (bytes(inp["stream"]), inp["script"], inp["sel"])])
+            return [two[1]], [inp]
         return [sock_rec.run_script(bytes(inp["stream"]), inp["script"], inp["sel"], writes=inp.get("writes"))], [inp]
 
     def sample(self, t):
